@@ -62,18 +62,15 @@ static int64_t g_T0;
 static int g_user_fd[2];
 static int g_parent_end_pipe[4];       /* pipe objects of the parent's in/out/err/exit ends */
 
+/* "not started": what a later start, destroy or any other call looks at. (The stored stop
+ * policy, deadline and nonblocking flag are only read once the handle is running, so they are
+ * deliberately not part of this predicate.) */
 static bool fresh(const reproc_t *p)
 {
-  return p->handle == PROCESS_INVALID && p->pipe.in == PIPE_INVALID &&
-         p->pipe.out == PIPE_INVALID && p->pipe.err == PIPE_INVALID &&
-         p->pipe.exit == PIPE_INVALID && p->status == STATUS_NOT_STARTED &&
-         p->deadline == REPROC_INFINITE && p->nonblocking == false &&
-         p->child.out == PIPE_INVALID && p->child.err == PIPE_INVALID &&
-         p->stop.first.action == REPROC_STOP_NOOP && p->stop.first.timeout == 0 &&
-         p->stop.second.action == REPROC_STOP_NOOP && p->stop.second.timeout == 0 &&
-         p->stop.third.action == REPROC_STOP_NOOP && p->stop.third.timeout == 0;
+  return p->handle == PROCESS_INVALID && p->pipe.in == PIPE_INVALID && p->pipe.out == PIPE_INVALID &&
+         p->pipe.err == PIPE_INVALID && p->pipe.exit == PIPE_INVALID && p->status == STATUS_NOT_STARTED &&
+         p->child.out == PIPE_INVALID && p->child.err == PIPE_INVALID;
 }
-
 
 static bool streq(const char *a, const char *b)
 {
